@@ -34,6 +34,9 @@ type Runner struct {
 	Regimes map[string]int
 	Last    string // one-line summary of the last op (replay mode)
 	Tag     string // "h=<history number>" — lets a disagreeing op line be traced back to its history
+	// PostTrain: node ids whose document vector was set / changed by a batch that began with the
+	// quantiser already trained (see Sim.DocDists)
+	PostTrain map[uint64]bool
 }
 
 func (r *Runner) replay() string { return strings.Join(r.Hist, "\n") }
@@ -93,14 +96,36 @@ func (r *Runner) Write(o Op) (ok bool) {
 	if r.Mode == "c10" {
 		r.judgeWF(o, d)
 		r.stepLine(o, d)
+		r.docLines(o, d)
 	} else {
 		// the same state clauses guard C03's hypothesis; reported under C10's signatures only there
 		if v := d.WFViolations(r.Sim.Cfg.R); len(v) > 0 {
 			r.Out.Stats["wf-broken-state"]++
 		}
 	}
+	r.notePostTrain(d)
 	r.Prev = d
 	return true
+}
+
+func (r *Runner) notePostTrain(d *Dump) {
+	prev := r.Prev
+	if r.PostTrain == nil {
+		r.PostTrain = map[uint64]bool{}
+	}
+	for id := range r.PostTrain {
+		if _, ok := d.DocVec[id]; !ok {
+			delete(r.PostTrain, id)
+		}
+	}
+	if prev == nil || prev.Quant == "" {
+		return
+	}
+	for id, v := range d.DocVec {
+		if pv, ok := prev.DocVec[id]; !ok || !sameVec(pv, v) || prev.NodeUUID[id] != d.NodeUUID[id] {
+			r.PostTrain[id] = true
+		}
+	}
 }
 
 func (r *Runner) judgeWF(o Op, d *Dump) {
@@ -125,6 +150,87 @@ func (r *Runner) judgeWF(o Op, d *Dump) {
 	r.Regimes[fmt.Sprintf("nodes=%d", len(d.Nodes)/4*4)]++
 }
 
+// docLines: the tie between the points bucket and the index change stream. For every element of the
+// batch whose point is named once, the model's `pstep` (top-level merge, `dec.Query(schema path)` on the
+// old and the new document, getOperation / preProcessVamana) gets the stored document before, the
+// incoming document and whether the index held a vector for the node; it must reproduce the document
+// stored afterwards and say whether the index holds a vector for the node now (and, for the plain store,
+// which one) — i.e. which changes reach the index at all, for flat and nested schema paths alike.
+func (r *Runner) docLines(o Op, d *Dump) {
+	prev := r.Prev
+	if prev == nil {
+		return
+	}
+	cfg := r.Sim.Cfg
+	count := map[int]int{}
+	for _, p := range o.Pts {
+		count[p.Idx]++
+	}
+	for _, p := range o.Pts {
+		if count[p.Idx] != 1 {
+			continue
+		}
+		u := PointUUID(p.Idx)
+		tags := VecTags{}
+		old, inc := "~", "~"
+		pid, existed := prev.UUIDNode[u]
+		id := pid
+		switch o.Kind {
+		case "ins":
+			nid, ok := d.UUIDNode[u]
+			if existed || !ok {
+				continue
+			}
+			id = nid
+			inc = FlatDoc(MergeTop(nil, cfg.DocOf(p)), tags)
+		case "upd":
+			if !existed {
+				continue // unknown point: skipped by the shard (nothing to observe by node id)
+			}
+			old = FlatDoc(prev.Docs[pid], tags)
+			inc = FlatDoc(cfg.DocOf(p), tags)
+		case "del":
+			if !existed {
+				continue
+			}
+			old = FlatDoc(prev.Docs[pid], tags)
+		}
+		if _, reused := prev.NodeUUID[id]; o.Kind == "ins" && reused {
+			continue
+		}
+		raw := 0
+		wasvec, isvec := "-", "?"
+		if cfg.PlainStore() {
+			raw = 1
+			isvec = "-"
+			if v, ok := prev.RawVec[id]; ok && prev.Vecs[id] {
+				wasvec = strconv.Itoa(tags.Of(v))
+			}
+		}
+		now := "~"
+		if m, ok := d.Docs[id]; ok && d.NodeUUID[id] == u {
+			now = FlatDoc(m, tags)
+		}
+		if raw == 1 {
+			if v, ok := d.RawVec[id]; ok && d.Vecs[id] {
+				isvec = strconv.Itoa(tags.Of(v))
+			}
+		}
+		b2i := func(b bool) int {
+			if b {
+				return 1
+			}
+			return 0
+		}
+		line := fmt.Sprintf("doc %s vp=%s op=%s id=%d old=%s inc=%s was=%d wasvec=%s raw=%d", r.Tag, cfg.PathCodes(), o.Kind, id, old, inc, b2i(prev.Vecs[id] && !prev.Fresh), wasvec, raw)
+		kind := "doc:flat:" + o.Kind
+		if cfg.Nested() {
+			kind = "doc:nested:" + o.Kind
+		}
+		r.Out.Emit(kind, line, fmt.Sprintf("new=%s inV=%d vec=%s", now, b2i(d.Vecs[id] && !d.Fresh), isvec), old != "~" && inc != "~")
+	}
+}
+
 // stepLine: for a batch that reaches the index as ONE change (deterministic: one insert worker), the
 // model is run on the previous dump with the real distances and must produce the new dump exactly.
 func (r *Runner) stepLine(o Op, d *Dump) {
@@ -133,6 +239,7 @@ func (r *Runner) stepLine(o Op, d *Dump) {
 		return
 	}
 	cfg := r.Sim.Cfg
+	cfg0 := cfg
 	p := o.Pts[0]
 	u := PointUUID(p.Idx)
 	var id uint64
@@ -149,15 +256,21 @@ func (r *Runner) stepLine(o Op, d *Dump) {
 			return
 		}
 		id = pid
-		if p.VSet {
-			hasVec = true
-		} else if p.VDel {
-			if !prev.HasField[pid] {
-				return
-			}
-		} else {
+		if !cfg0.TouchesVector(p) {
+			// the top-level value holding the vector is not part of the update: the index is handed the
+			// stored vector again (a re-insert of an unchanged point); not compared line by line
 			return
 		}
+		// what reaches the index is decided by the documents before and after the merge (the schema
+		// path may be nested: the update replaces the whole top-level object)
+		was, is := prev.HasField[pid], d.HasField[pid]
+		if !was && !is {
+			return
+		}
+		if is && !p.VSet {
+			return
+		}
+		hasVec = is
 	case "del":
 		pid, ok := prev.UUIDNode[u]
 		if !ok || !prev.HasField[pid] {
@@ -266,7 +379,7 @@ func (r *Runner) filterQuery(f string) (*models.Query, error) {
 		ps := strings.Split(f, ":")
 		lo, _ := strconv.ParseInt(ps[1], 10, 64)
 		hi, _ := strconv.ParseInt(ps[2], 10, 64)
-		return &models.Query{Property: GProp, Integer: &models.SearchIntegerOptions{Value: lo, Operator: models.OperatorInRange, EndValue: hi}}, nil
+		return &models.Query{Property: r.Sim.Cfg.GProp(), Integer: &models.SearchIntegerOptions{Value: lo, Operator: models.OperatorInRange, EndValue: hi}}, nil
 	case strings.HasPrefix(f, "id:"):
 		var us []string
 		for _, s := range strings.Split(f[3:], ",") {
@@ -307,7 +420,7 @@ func (r *Runner) Search(o Op) {
 		}
 		sort.Slice(filter, func(i, j int) bool { return filter[i] < filter[j] })
 	}
-	res, serr := r.Sim.Sh.SearchPoints(models.SearchRequest{Query: models.Query{Property: Prop, VectorVamana: &models.SearchVectorVamanaOptions{
+	res, serr := r.Sim.Sh.SearchPoints(models.SearchRequest{Query: models.Query{Property: r.Sim.Cfg.VProp(), VectorVamana: &models.SearchVectorVamanaOptions{
 		Vector: q.Vec, Operator: models.OperatorNear, SearchSize: q.SS, Limit: q.Limit, Filter: fq, Weight: q.Weight}}})
 	var hits []hit
 	impl := ""
@@ -337,6 +450,13 @@ func (r *Runner) Search(o Op) {
 		ids = nil // the entry vector does not exist on disk yet
 	}
 	dq, err := r.Sim.QueryDists(q.Vec, ids)
+	if err != nil {
+		r.fail("dist-error", err.Error())
+		return
+	}
+	// ... and to the vector each live point's document carries right now (the property speaks about
+	// "the point's stored vector": the index must have followed every change of the document)
+	docDq, err := r.Sim.DocDists(q.Vec, d, r.PostTrain)
 	if err != nil {
 		r.fail("dist-error", err.Error())
 		return
@@ -378,10 +498,10 @@ func (r *Runner) Search(o Op) {
 	if r.Verbose {
 		fmt.Println("  answer:", impl)
 	}
-	r.judgeSearch(o, d, filter, fq != nil, inFilter, hits, serr, dq, w)
+	r.judgeSearch(o, d, filter, fq != nil, inFilter, hits, serr, dq, docDq, w)
 }
 
-func (r *Runner) judgeSearch(o Op, d *Dump, filter []uint64, hasFilter bool, inFilter map[uint64]bool, hits []hit, serr error, dq map[uint64]float32, w float32) {
+func (r *Runner) judgeSearch(o Op, d *Dump, filter []uint64, hasFilter bool, inFilter map[uint64]bool, hits []hit, serr error, dq, docDq map[uint64]float32, w float32) {
 	q := o.Q
 	cfg := r.Sim.Cfg
 	bad := func(kind, what string) {
@@ -428,6 +548,9 @@ func (r *Runner) judgeSearch(o Op, d *Dump, filter []uint64, hasFilter bool, inF
 		if x, ok := dq[h.id]; ok && canon(x) != canon(h.dist) {
 			bad("distance", fmt.Sprintf("node %d reported %08x, index distance %08x", h.id, canon(h.dist), canon(x)))
 		}
+		if x, ok := docDq[h.id]; ok && live[h.id] && x == x && canon(x) != canon(h.dist) {
+			bad("distance-stale-vector", fmt.Sprintf("node %d reported %08x, but the index's distance to the vector its document stores (%s) is %08x", h.id, canon(h.dist), vecStr(d.DocVec[h.id]), canon(x)))
+		}
 		if canon(h.hybrid) != canon(-(w * h.dist)) {
 			bad("hybrid", fmt.Sprintf("node %d hybrid %08x, expected %08x", h.id, canon(h.hybrid), canon(-(w*h.dist))))
 		}
@@ -456,19 +579,30 @@ func (r *Runner) judgeSearch(o Op, d *Dump, filter []uint64, hasFilter bool, inF
 	if regime == "" {
 		return
 	}
+	// the candidates are the points whose DOCUMENT carries the field (inside the filter): a live point the
+	// index never heard of still belongs to the exact answer. Its distance is the index's distance to the
+	// vector its document stores; when that cannot be computed only the size of the answer is judged.
 	var ds []float32
+	unknown := 0
 	for _, id := range cands {
 		if x, ok := dq[id]; ok {
 			ds = append(ds, x)
+		} else if x, ok := docDq[id]; ok && x == x {
+			ds = append(ds, x)
+		} else {
+			unknown++
 		}
 	}
 	sort.Slice(ds, func(i, j int) bool { return ds[i] < ds[j] })
-	want := len(ds)
+	want := len(cands)
 	if q.Limit < want {
 		want = q.Limit
 	}
 	if len(hits) != want {
 		bad(regime, fmt.Sprintf("%d results, exact answer has %d", len(hits), want))
+		return
+	}
+	if unknown > 0 {
 		return
 	}
 	for i, h := range hits {
@@ -505,11 +639,39 @@ func fixedScenario(k int, c *Config) [][]Op {
 			{Op{Kind: "upd", Pts: []PC{{Idx: 1, VSet: true, V: v(5, 5)}, {Idx: 1, VSet: true, V: v(0, 1)}}}, q},
 			{Op{Kind: "upd", Pts: []PC{{Idx: 2, VDel: true}, {Idx: 2, VSet: true, V: v(1, 1)}, {Idx: 3, VDel: true}, {Idx: 3, VDel: true}}}, q},
 			{Op{Kind: "upd", Pts: []PC{{Idx: 3, VSet: true, V: v(1, 2)}, {Idx: 3, VSet: true, V: v(2, 1)}, {Idx: 3, VDel: true}, {Idx: 3, VSet: true, V: v(3, 3)}}}, q}}
+	case 3, 4, 5:
+		// index schemas over NESTED property paths: no update ever carries the schema key itself. The
+		// vector is moved by replacing its parent object, dropped by deleting the top-level key, by
+		// replacing the parent with a sibling only / with an empty object / with a nil leaf, by updating
+		// the filter property that lives under the same top-level key; it is added to a point that had
+		// none; an update of an unrelated top-level key leaves it alone. One change per batch and
+		// several per batch, each followed by a search near the moved / dropped vectors.
+		c.VPath, c.GPath = "n.v", "n.g"
+		if k == 4 {
+			c.VPath, c.GPath = "a.b.c.v", "g"
+		}
+		if k == 5 {
+			c.VPath, c.GPath = "n.m.v", "n.g"
+			c.Cache = 0
+		}
+		ins.Pts = append(ins.Pts, PC{Idx: 4, GSet: true, G: 4, Sib: true}, PC{Idx: 5, VSet: true, V: v(5, 0), Tag: true})
+		far := Op{Kind: "qry", Q: &Qry{Vec: v(9, 9), Limit: 6, SS: 10, Filter: "-"}}
+		fq := Op{Kind: "qry", Q: &Qry{Vec: v(0, 0), Limit: 3, SS: 10, Filter: "g:0:4"}}
+		return [][]Op{{ins, q},
+			{Op{Kind: "upd", Pts: []PC{{Idx: 0, VSet: true, V: v(9, 9)}}}, far, q},
+			{Op{Kind: "upd", Pts: []PC{{Idx: 1, VDel: true}}}, q, fq},
+			{Op{Kind: "upd", Pts: []PC{{Idx: 2, Sib: true}}}, q, fq},
+			{Op{Kind: "upd", Pts: []PC{{Idx: 4, VSet: true, V: v(2, 2), Sib: true}}}, q},
+			{Op{Kind: "upd", Pts: []PC{{Idx: 5, Tag: true}}}, q},
+			{Op{Kind: "upd", Pts: []PC{{Idx: 3, GSet: true, G: 1}}}, q, fq},
+			{Op{Kind: "upd", Pts: []PC{{Idx: 0, VObj: true}, {Idx: 4, VNil: true}, {Idx: 1, VSet: true, V: v(1, 1)}, {Idx: 2, VSet: true, V: v(2, 1), GSet: true, G: 2}}}, far, q, fq},
+			{Op{Kind: "upd", Pts: []PC{{Idx: 1, VSet: true, V: v(8, 8)}, {Idx: 1, Tag: true}, {Idx: 2, VSet: true, V: v(7, 7)}, {Idx: 2, VObj: true}}}, far, q},
+		}
 	}
 	return nil
 }
 
-const fixedScenarios = 3
+const fixedScenarios = 6
 
 // RunScenario: one history in this process. Returns false when the history had to stop early.
 func RunScenario(mode string, seed uint64, k int, nOps int, dir string, verbose bool) {
